@@ -196,7 +196,13 @@ def run(ctx, dangling_clause=True):
                 # `if let Some(new) = replace.get(&page)`: the test is the discriminant of the lookup's result
                 q = d[3]["p"]
                 d = ub.single_def(q["l"]) if not [e for e in q["p"] if e != "*"] else None
-            if d and d[2] == "call" and re.search(r"PartialEq(<.*>)?>?::(eq|ne)$|PartialEq for .*::(eq|ne)$|BTreeMap::<.*>::(get|contains_key)$", d[3]["f"].get("fn") or ""):
+            rnd = ub.sname(t["d"], 6)
+            in_loop = any(bi in bl and rec[0].bb in bl for h, bl in ub.loops().items())
+            # every test inside the loop counts, except the three that belong to the walk itself: "is there a next id", "is the id
+            # in the table" (the function gives up otherwise) and "has it children"
+            walk_test = re.match(r"^discr\(<[^()]*Iterator>::next\(|^(?:\w+::)*is_empty\(|^Eq\(len\(|^Ne\(len\(|^Gt\(len\(", rnd) is not None or \
+                (re.match(r"^discr\((?:\w+::)*get(?:_mut)?\([^,]*bookmark_table", rnd) is not None and re.search(r"replace|arg3", rnd) is None)
+            if in_loop and not walk_test:
                 # within one turn of the loop: do not go round through the loop header
                 heads = [h for h, bl in ub.loops().items() if bi in bl and rec[0].bb in bl]
 
